@@ -10,6 +10,7 @@ several timers are due at the same instant the harness decides their order
 """
 
 import asyncio
+import contextvars
 import heapq
 import sys
 import threading
@@ -140,6 +141,9 @@ class VLoop(base_events.BaseEventLoop):
 
     # -- datagram endpoints ----------------------------------------------------------
     async def create_datagram_endpoint(self, protocol_factory, local_addr=None, remote_addr=None, **kwargs):
+        if getattr(self, "endpoint_delay", 0):
+            # name resolution / socket set-up that takes (virtual) time
+            await asyncio.sleep(self.endpoint_delay)
         protocol = protocol_factory()
         transport = FakeDatagramTransport(self, protocol, local_addr, remote_addr)
         self.transports.append(transport)
@@ -242,6 +246,17 @@ class FakeDatagramTransport(asyncio.DatagramTransport):
         return True
 
 
+# Which harness-level operation a sender call belongs to.  Set with ``owned()``
+# at the start of the operation's task; tasks the library creates on the way
+# (it is free to) inherit the context of the task that created them.
+OWNER = contextvars.ContextVar("vmc_owner", default=None)
+
+
+async def owned(name, coro):
+    OWNER.set(name)
+    return await coro
+
+
 class ControlledSender:
     """``Client(sender=...)``: every call is parked as a pending request; the
     harness decides which pending request the agent answers next."""
@@ -256,7 +271,7 @@ class ControlledSender:
         task = asyncio.current_task()
         fut = self.loop.create_future()
         self.seq += 1
-        entry = {"task": task.get_name() if task else None, "packet": bytes(packet), "kwargs": kwargs, "future": fut, "endpoint": endpoint, "seq": self.seq}
+        entry = {"task": OWNER.get() or (task.get_name() if task else None), "packet": bytes(packet), "kwargs": kwargs, "future": fut, "endpoint": endpoint, "seq": self.seq}
         self.pending.append(entry)
         self.calls.append((endpoint, bytes(packet), kwargs))
         return await fut
